@@ -262,6 +262,9 @@ func snapshotReaders(p *Prog) []string {
 // for the four shapes of the filter and records which store each reader call is given and whether it is given a
 // snapshot point. Stores are told apart by value: the registry lookup of the caller's own id, of the filter's id,
 // or the all-store.
+// c02SameIds: evaluate the dispatch for a filter that names the caller's own id.
+var c02SameIds bool
+
 func c02DispatchTable(p *Prog, fi *FuncInfo, readers ...string) ([]dispatchRow, error) {
 	info := fi.Pkg.TypesInfo
 	f := p.FlatInlExcept(fi, readers...)
@@ -289,6 +292,10 @@ func c02DispatchTable(p *Prog, fi *FuncInfo, readers ...string) ([]dispatchRow, 
 			fv := &Val{Fields: map[string]*Val{"TxId": {Nil: true}, "BeforeSeq": {Nil: true}}}
 			if txSet {
 				fv.Fields["TxId"] = &Val{Ptr: strVal("filter-id")}
+				if c02SameIds {
+					// a read outside any transaction: the caller's id and the filter's id are the same (main) id
+					fv.Fields["TxId"] = &Val{Ptr: strVal("own-id")}
+				}
 			}
 			if bsSet {
 				fv.Fields["BeforeSeq"] = &Val{Ptr: intVal(5)}
@@ -535,6 +542,24 @@ func c02Dispatch(p *Prog, r *Report) {
 				fmt.Sprintf("for this filter the core reads %v; the levels need %v", a.Reads, exp))
 		}
 	}
+	// the same with a filter that names the caller's own id (reads outside a transaction: both are the main id): the
+	// all-store is still read only when there is no filter
+	c02SameIds = true
+	for _, fn := range []*FuncInfo{g, gf} {
+		ts, err := c02DispatchTable(p, fn, readers...)
+		if err != nil {
+			continue
+		}
+		for _, row := range ts {
+			if !row.TxIdSet {
+				continue
+			}
+			cons := fmt.Sprintf("dispatch TxId-set=%v BeforeSeq-set=%v own-id=filter-id/%s", row.TxIdSet, row.BeforeSet, fn.Obj.Name())
+			r.Check(!strings.Contains(strings.Join(row.Reads, ","), "all-store"), "C02.b", cons, p.pos(fn.Decl), fmt.Sprintf("reads %v", row.Reads),
+				fmt.Sprintf("when the filter names the caller's own id (a read outside any transaction) the core reads %v: the all-store holds the uncommitted versions of every open transaction, so a plain Get sees dirty writes and an uncommitted Delete hides a committed value - reads outside transactions must behave as ReadCommitted", row.Reads))
+		}
+	}
+	c02SameIds = false
 	// per-store readers: LastBefore iff a snapshot point is given
 	r.Floor("C02.b", "per-store-readers", len(readers), 2)
 	for _, root := range readers {
